@@ -207,9 +207,11 @@ fn thread_cpu_ticks(tid: u64) -> Option<u64> {
     // fields after the ")" of comm: state is field 3; utime = 14, stime = 15 (1-based)
     let rest = &s[s.rfind(')')? + 2..];
     let f: Vec<&str> = rest.split_whitespace().collect();
+    // user time only: a loop in the code under test burns user time; system time also accrues while the kernel reclaims
+    // memory on behalf of a page fault of this thread, which on an overcommitted machine can take a minute inside one
+    // perfectly ordinary case (observed once: 85 s charged to a 3-byte input whose whole shard takes 16 s)
     let ut: u64 = f.get(11)?.parse().ok()?;
-    let st: u64 = f.get(12)?.parse().ok()?;
-    Some(ut + st)
+    Some(ut)
 }
 
 fn gettid() -> u64 {
